@@ -4,7 +4,7 @@ from . import _batcher
 ID = 'C09'
 MODULE = _batcher.MODULE
 LEAN_SUBDIRS = _batcher.LEAN_SUBDIRS
-THEOREMS = ['AiutiVerif.Batcher.C09_cancel_touches_only_the_caller','AiutiVerif.Batcher.C04_outcome']
+THEOREMS = ['AiutiVerif.Batcher.C09_cancellations_invisible','AiutiVerif.Batcher.C09_cancellations_invisible_prefix','AiutiVerif.Batcher.strip_runProgram','AiutiVerif.Batcher.C09_cancel_touches_only_the_caller','AiutiVerif.Batcher.C04_outcome']
 ASSUMPTIONS = list(_batcher.ASSUMPTIONS_COMMON)
 RULE = ('timed programs of up to 10 calls in which any subset of callers is cancelled at offsets covering queued / batch running before its result / after its result, shared and distinct keys, any result order, retention 0 and >0, followed by fresh calls; every program runs on the real AsyncBackgroundBatcher under a virtual clock and on the Lean '
         'machine, the event streams are compared on the components this property mentions, and an independent '
